@@ -525,7 +525,7 @@ class VQESolver:
                             for g in basis_circuit:
                                 prep_circuit.add_gate(g)
                             qb_freq_dict[qb_term], _ = self.backend.simulate(prep_circuit)
-                            prep_circuit._gates = prep_circuit._gates[:-len(basis_circuit) or None]
+                            prep_circuit._gates = prep_circuit._gates[:-basis_circuit.size or None]
 
                     if resample:
                         if qb_term not in resampled_expect_dict:
@@ -669,7 +669,7 @@ class VQESolver:
                             for g in basis_circuit:
                                 prep_circuit.add_gate(g)
                             qb_freq_dict[qb_term], _ = self.backend.simulate(prep_circuit)
-                            prep_circuit._gates = prep_circuit._gates[:-len(basis_circuit) or None]
+                            prep_circuit._gates = prep_circuit._gates[:-basis_circuit.size or None]
 
                     if resample:
                         if qb_term not in resampled_expect_dict:
